@@ -24,6 +24,9 @@ def alphabet(kind):
         items["EMPTY"] = b"\r\n"
         items["NONUTF"] = b"\xff\xfe\x80 \xc3\x28\r\n"
         items["LFONLY"] = pk["A"].replace(b"\r\n", b"\n")
+    if kind == "waveshare":
+        from .. import wire as _w
+        items["RAISE"] = _w.usb_packet(_w.can_id(3, 126720, 5, 255), b"")     # valid frame, decoder raises (fast PGN, no data)
     if kind == "ebyte":
         items["SHORTLEN"] = bytes([0x81]) + pk["B1"][1:5] + b"\x00" * 8     # fast PGN with one data byte
     return items
